@@ -347,6 +347,9 @@ def run(prog, rep):
     cd.flag_errors(rep)
     from ..codecs import no_stale_derived_state
     rep.attempt(no_stale_derived_state, prog, cd, rep)
+    # 'a block equals its own decode': the text fields come back as they were written only if the string codec is inverse
+    from .. import primitives as PR
+    rep.attempt(PR.string_codec, prog, rep)
     rep.explanation = (
         "the oracle for 'content' is the writer: every attribute the layout term of C._write reads must take part in C.__eq__ "
         "(eq-coverage) unless __eq__ is byte-level (serialises both operands, faithful by C01); element-wise zip comparisons "
